@@ -3,7 +3,7 @@ import ast
 
 from .. import legacy, tablechecks
 from ..cfg import CFG
-from ..report import AnalysisError, norm
+from ..report import borrow, AnalysisError, norm
 from ..srcmodel import own_nodes, own_statements
 from ..terms import Resolver, alternatives, show, walk
 
@@ -40,6 +40,12 @@ def run(rep, ctx):
     rep.run_rule("C14.R7", "shipped default table: every unit resolves to a category of its own quantity type; symbols unique (exhaustive)", r7_units, ctx)
     from . import c12
     rep.run_rule("C14.R9", "AddCategory: every path that registers a caller-given list of valid units passes the membership test of each unit in the quantity type's units", r9_valid_units, ctx)
+    from . import c05
+    rep.rule("C14.R10", "a registered unit is found under its own quantity type whatever categories are registered: GetInfo looks it up first under the quantity type as given (shared with C05.R2)")
+    try:
+        borrow(rep, c05.r2_getinfo, ctx, "C05.R2", "C14.R10", keep=lambda o: o.key == "GetInfo:first-lookup-as-given")
+    except AnalysisError as e:
+        rep.error("C14.R10", str(e))
     rep.run_rule("C14.R8", "registration code: every given or inherited default value is asserted against the final limits; derived defaults only from inclusive limits; default unit drawn from the quantity type", c12.r6_registration, ctx, "C14.R8")
     rep.not_decided += [
         "step-by-step agreement with a reference model for arbitrary argument values (only ordering, ownership and table facts are decided)",
